@@ -83,13 +83,25 @@ theorem gap_ge_backoff_from (bo : Backoffs) (script : List Att) (i : Nat) (t : I
           obtain ⟨b', hb', hle⟩ := ih (i + 1) _ j h0 h1 ha
           exact ⟨b', by rw [← hb']; congr 1; omega, hle⟩
 
-theorem gap_ge_backoff (bo : Backoffs) (script : List Att) (t : Int) (j : Nat) (tj tj' : Int) (a : Att)
-    (h0 : (request bo false script t).times[j]? = some tj)
-    (h1 : (request bo false script t).times[j + 1]? = some tj')
-    (ha : script[j]? = some a) :
+/-- Between the end of attempt `j` and the start of attempt `j+1` the loop waited at least the
+    `j`-th configured backoff — every backoff stream, every script, every position, whenever a next
+    attempt exists. The only exception (the guard is exactly that) is the documented override: with
+    `enforce_retry_after` on, a 429 *that carries a usable Retry-After* waits for the server's value
+    instead, even if shorter. -/
+theorem gap_ge_backoff (bo : Backoffs) (enforce : Bool) (script : List Att) (t : Int) (j : Nat)
+    (tj tj' : Int) (a : Att)
+    (h0 : (request bo enforce script t).times[j]? = some tj)
+    (h1 : (request bo enforce script t).times[j + 1]? = some tj')
+    (ha : script[j]? = some a)
+    (hguard : enforce = false ∨ ∃ c, verdict a.fault = .retry c none) :
     ∃ b, bo j = some b ∧ b ≤ tj' - (tj + a.lat) := by
-  have := gap_ge_backoff_from bo script 0 t j tj tj' a h0 h1 ha
-  simpa using this
+  obtain ⟨b, c, ra, hb, hv, hg⟩ := gap_eq_from bo enforce script 0 t j tj tj' a h0 h1 ha
+  refine ⟨b, by simpa using hb, ?_⟩
+  have hs := slept_ge (effDelay enforce ra b)
+  rcases hguard with he | ⟨c', hv'⟩
+  · subst he; have := effDelay_ge_backoff ra b; omega
+  · rw [hv] at hv'; injection hv' with _ hra; subst hra
+    simp only [effDelay] at hg hs; omega
 
 theorem verdict_429 (r : Resp) (h : r.status = 429) :
     verdict (.http r) = .retry .tooMany (retryAfter r) := by
@@ -320,30 +332,103 @@ theorem http_date_delay_exact (r : Resp) (d : Int) (hd : r.hdr = .date d) (hpos 
   have : ¬ ceilSec d < 0 := by omega
   simp [retryAfter, hd, this]
 
-/-- a date 2.5 s ahead is waited for 3 s (zero backoff): never earlier than requested -/
-theorem http_date_rounds_up :
+-- a date 2.5 s ahead is waited for 3 s (zero backoff): never earlier than requested
+example :
     (request (ofList [0]) false [⟨.http ⟨429, .date 2560, .empty, none⟩, 0⟩] 0).times = [0, 3072] := by decide
 
-/-- An unparsable `Retry-After` is ignored — no foreign exception, the 429 is retried on the
-    configured backoff alone (and the body's `details.retryAfterSeconds` is not consulted, as for
-    any present header). -/
-theorem retry_after_garbage_falls_back (bo : Backoffs) (enforce : Bool) (rest : List Att) (t : Int)
-    (r : Resp) (lat : Nat) (b : Int) (h429 : r.status = 429) (hg : r.hdr = .garbage) (hb : bo 0 = some b) :
-    verdict (.http r) = .retry .tooMany none ∧
-    (request bo enforce (⟨.http r, lat⟩ :: rest) t).waits.head? = some b := by
-  have hv : verdict (.http r) = .retry .tooMany none := by
-    rw [verdict_429 r h429]; simp [retryAfter, hg]
-  exact ⟨hv, by simp [request, run_cons, hv, hb, effDelay]⟩
+/-- F1/F2 repaired, the unparsable forms: a 429 whose `Retry-After` is garbage or overflows
+    `float()` is — at any position of any script — retried like a 429 without the header (no
+    foreign exception), and the wait before the next attempt is exactly the configured backoff
+    (the body's `retryAfterSeconds` is not consulted, as for any present header). -/
+theorem unparsable_retry_after_uses_backoff (bo : Backoffs) (enforce : Bool) (script : List Att) (t : Int)
+    (j : Nat) (a : Att) (r : Resp) (ha : script[j]? = some a) (hf : a.fault = .http r)
+    (h429 : r.status = 429) (hg : r.hdr = .garbage ∨ r.hdr = .overflow) :
+    verdict a.fault = .retry .tooMany none ∧
+    ∀ tj tj', (request bo enforce script t).times[j]? = some tj →
+      (request bo enforce script t).times[j + 1]? = some tj' →
+      ∃ b, bo j = some b ∧ tj' - (tj + a.lat) = slept b := by
+  have hv : verdict a.fault = .retry .tooMany none := by
+    rw [hf, verdict_429 r h429]; rcases hg with hg | hg <;> simp [retryAfter, hg]
+  refine ⟨hv, fun tj tj' h0 h1 => ?_⟩
+  obtain ⟨b, c, ra, hb, hv', hgap⟩ := gap_eq_from bo enforce script 0 t j tj tj' a h0 h1 ha
+  rw [hv] at hv'; injection hv' with _ hra; subst hra
+  exact ⟨b, by simpa using hb, by simpa [effDelay] using hgap⟩
 
-/-- F2 repaired: a `Retry-After` that `float()` turns into ±inf ("inf", "1e999") is ignored like
-    any other unparsable value — no foreign exception, the 429 is retried on the configured backoff. -/
-theorem retry_after_overflow_falls_back (bo : Backoffs) (enforce : Bool) (rest : List Att) (t : Int)
-    (r : Resp) (lat : Nat) (b : Int) (h429 : r.status = 429) (hg : r.hdr = .overflow) (hb : bo 0 = some b) :
-    verdict (.http r) = .retry .tooMany none ∧
-    (request bo enforce (⟨.http r, lat⟩ :: rest) t).waits.head? = some b := by
-  have hv : verdict (.http r) = .retry .tooMany none := by
-    rw [verdict_429 r h429]; simp [retryAfter, hg]
-  exact ⟨hv, by simp [request, run_cons, hv, hb, effDelay]⟩
+/-! ### "never waiting less than a server-requested Retry-After" — against what the server SENT
+
+  Full statement (FALSE of the code, see the three witnesses):
+    ∀ script j a r q, a.fault = .http r → requested r = some q → next attempt exists → q ≤ gap.
+  It fails for (F5) fractional delay-seconds — `int(float("2.5")) = 2`; (F4) a header spelled
+  `retry-after` — the lookup is case-sensitive after `dict(response.headers)`; and, by design and as
+  documented (docs/configuration.rst: "When the API server responds with HTTP 429 …"), for a
+  Retry-After on any status other than 429. The `_partial` theorem carries exactly these guards. -/
+
+/-- the guard: status 429, the header (if any) spelled `Retry-After`, whole seconds -/
+def HonouredForm (r : Resp) : Prop :=
+  r.status = 429 ∧ (∀ h, r.hdr ≠ .otherCase h) ∧ (∀ h, r.hdr = .secs h → truncSec h = h) ∧
+  (r.hdr = .absent → ∀ d, r.detRA = some d → truncSec d = d)
+
+theorem gap_ge_requested_partial (bo : Backoffs) (enforce : Bool) (script : List Att) (t : Int)
+    (j : Nat) (tj tj' : Int) (a : Att) (r : Resp) (q : Int)
+    (h0 : (request bo enforce script t).times[j]? = some tj)
+    (h1 : (request bo enforce script t).times[j + 1]? = some tj')
+    (ha : script[j]? = some a) (hf : a.fault = .http r) (hform : HonouredForm r)
+    (hq : requested r = some q) :
+    q ≤ tj' - (tj + a.lat) := by
+  obtain ⟨h429, hcase, hsecs, hdet⟩ := hform
+  have key : ∃ ra, retryAfter r = some ra ∧ q ≤ ra := by
+    unfold requested at hq
+    unfold retryAfter
+    cases hh : r.hdr with
+    | absent =>
+      simp only [hh] at hq ⊢
+      unfold detailsRA
+      by_cases hp : r.payload = .statusJson
+      · simp only [hp, if_true] at hq ⊢
+        cases hd : r.detRA with
+        | none => simp [hd] at hq
+        | some d =>
+          simp only [hd] at hq ⊢
+          by_cases hz : d ≠ 0
+          · rw [if_pos hz] at hq; rw [if_pos hz]
+            have := hdet hh d hd
+            exact ⟨truncSec d, rfl, by injection hq with hq; omega⟩
+          · rw [if_neg hz] at hq; cases hq
+      · simp [hp] at hq
+    | secs h =>
+      simp only [hh] at hq ⊢
+      have := hsecs h hh
+      exact ⟨truncSec h, rfl, by injection hq with hq; omega⟩
+    | date d =>
+      simp only [hh] at hq ⊢
+      have := (ceilSec_ge d).1
+      refine ⟨_, rfl, ?_⟩
+      injection hq with hq
+      split at hq <;> split <;> omega
+    | garbage => simp [hh] at hq
+    | overflow => simp [hh] at hq
+    | otherCase h => exact absurd hh (hcase h)
+  obtain ⟨ra, hra, hle⟩ := key
+  have := gap_ge_retry_after bo enforce script t j tj tj' a r ra h0 h1 ha hf h429 hra
+  omega
+
+/-- negation witness (F5): the server asked for 2.5 s, the next attempt came after 2 s -/
+theorem fractional_delay_truncated_witness :
+    ∃ (r : Resp) (q tj tj' : Int), r.status = 429 ∧ requested r = some q ∧
+      (request (ofList [0]) false [⟨.http r, 0⟩] 0).times = [tj, tj'] ∧ tj' - tj < q :=
+  ⟨⟨429, .secs 2560, .empty, none⟩, 2560, 0, 2048, rfl, rfl, by decide, by decide⟩
+
+/-- negation witness (F4): `retry-after: 5` (lower case) with a 1 s backoff: retried after 1 s -/
+theorem other_case_header_ignored_witness :
+    ∃ (r : Resp) (q tj tj' : Int), r.status = 429 ∧ requested r = some q ∧
+      (request (ofList [1024]) false [⟨.http r, 0⟩] 0).times = [tj, tj'] ∧ tj' - tj < q :=
+  ⟨⟨429, .otherCase 5120, .empty, none⟩, 5120, 0, 1024, rfl, rfl, by decide, by decide⟩
+
+/-- by design (documented: 429 only): `503` + `Retry-After: 10` with a 1 s backoff: retried after 1 s -/
+theorem retry_after_on_5xx_ignored_witness :
+    ∃ (r : Resp) (q tj tj' : Int), r.status = 503 ∧ requested r = some q ∧
+      (request (ofList [1024]) false [⟨.http r, 0⟩] 0).times = [tj, tj'] ∧ tj' - tj < q :=
+  ⟨⟨503, .secs 10240, .empty, none⟩, 10240, 0, 1024, rfl, rfl, by decide, by decide⟩
 
 -- non-vacuity: concrete scripts that meet the hypotheses, evaluated by the model
 example : (request (ofList [1024, 512]) false
@@ -373,7 +458,8 @@ theorem delays_follow_config_from (l : List Int) (p : Nat) (s : Throttler) (t : 
     (cs : List (CycleIn × Nat)) (h : AfterErrors l p s) (hq : QuietErrors cs) (k : Nat)
     (hk : k < cs.length) :
     ∃ o, (cycles (Delays.ofList l) s t cs)[k]? = some o ∧
-      o.activated = l[min (p + k) (l.length - 1)]? ∧ o.shouldRun = true ∧ o.escaped = .none_ := by
+      o.activated = l[min (p + k) (l.length - 1)]? ∧ o.shouldRun = true ∧ o.escaped = .none_ ∧
+      o.sleep2 = (match o.activated with | some d => pauseLen d | none => 0) := by
   induction cs generalizing p s t k with
   | nil => simp at hk
   | cons c rest ih =>
@@ -385,20 +471,23 @@ theorem delays_follow_config_from (l : List Int) (p : Nat) (s : Throttler) (t : 
     have hstep := error_step l p s t ran dur w1 h
     simp only [cycles]
     cases k with
-    | zero => exact ⟨_, by simp, by simpa using hstep.1, hstep.2.2.1, hstep.2.2.2⟩
+    | zero =>
+      exact ⟨_, by simp, by simpa using hstep.1, hstep.2.2.1, hstep.2.2.2.1,
+        by rw [hstep.1]; exact hstep.2.2.2.2.1⟩
     | succ k =>
       have hq' : QuietErrors rest := fun x hx => hq x (List.mem_cons_of_mem _ hx)
-      obtain ⟨o, ho, ha, hs, he⟩ := ih (p + 1) _ _ hstep.2.1 hq' k (by simpa using hk)
-      exact ⟨o, by simpa using ho, by rw [ha]; congr 2; omega, hs, he⟩
+      obtain ⟨o, ho, ha, hs, he, hsl⟩ := ih (p + 1) _ _ hstep.2.1 hq' k (by simpa using hk)
+      exact ⟨o, by simpa using ho, by rw [ha]; congr 2; omega, hs, he, hsl⟩
 
 /-- The k-th consecutive error (counting from 0, starting from a fresh throttler) pauses the object
     for `delays[k]`, the last delay being repeated for ever; with an empty configuration: no pause.
-    Every such error is swallowed, and the block is allowed to run each time (the pause was slept
-    through inside the cycle). -/
+    The pause is really served (`sleep2` = the chosen delay, inside the cycle), every such error is
+    swallowed, and the block is allowed to run each time. -/
 theorem delays_follow_config (l : List Int) (t : Int) (cs : List (CycleIn × Nat))
     (hq : QuietErrors cs) (k : Nat) (hk : k < cs.length) :
     ∃ o, (cycles (Delays.ofList l) Throttler.fresh t cs)[k]? = some o ∧
-      o.activated = l[min k (l.length - 1)]? ∧ o.shouldRun = true ∧ o.escaped = .none_ := by
+      o.activated = l[min k (l.length - 1)]? ∧ o.shouldRun = true ∧ o.escaped = .none_ ∧
+      o.sleep2 = (match o.activated with | some d => pauseLen d | none => 0) := by
   have := delays_follow_config_from l 0 Throttler.fresh t cs (afterErrors_fresh l) hq k hk
   simpa using this
 
@@ -483,25 +572,87 @@ theorem swallowed (nth : Nat → Option Int) (s : Throttler) (t : Int) (i : Cycl
     refine hesc.2.2.2 hb ?_ hr
     intro hn; rw [hiff.mpr hn] at h; cases h
 
-/-- One object's cycle leaves every other object's throttler untouched (the throttler is a field
-    of the per-object memory). -/
-theorem other_objects_unaffected (cfg : Delays) (m : Memories) (k k' : Nat) (t : Int) (i : CycleIn)
-    (h : k' ≠ k) : stepObject cfg m k t i k' = m k' := by
-  simp [stepObject, h]
+/-- N objects on one clock, any interleaving of their cycles (structural containment; that one
+    object's *sleep* does not hold up another's start time is not a theorem but the D tie: 1–3 real
+    throttlers run concurrently on one virtual clock and each must follow its solo model run; and
+    `worker_limit = None`, see ASSUMPTIONS): every object's throttler and every one of its cycle
+    outputs in the product run are exactly those of the object running alone on its own events.
+    In particular an object whose blocks never fail is never paused, whatever the others do. -/
+theorem product_projection (cfg : Delays) (m : Memories) (es : List Event) (k : Nat) :
+    (runProduct cfg m es).1 k = (runSolo cfg k (m k) es).1 ∧
+    ((runProduct cfg m es).2.filter (fun p => p.1 = k)).map (·.2) = (runSolo cfg k (m k) es).2 := by
+  induction es generalizing m with
+  | nil => simp [runProduct, runSolo]
+  | cons e rest ih =>
+    simp only [runProduct, runSolo]
+    by_cases he : e.obj = k
+    · have hm : stepObject cfg m e.obj e.at_ e.inp k = (cycle cfg (m k) e.at_ e.inp).st := by
+        simp [stepObject, he]
+      have := ih (stepObject cfg m e.obj e.at_ e.inp)
+      rw [hm] at this
+      simp only [he, if_true, List.filter_cons, decide_true, List.map_cons]
+      exact ⟨by rw [← he] at this ⊢; simpa [he] using this.1, by
+        rw [← he] at this ⊢; simpa [he] using this.2⟩
+    · have hm : stepObject cfg m e.obj e.at_ e.inp k = m k := by
+        have : ¬ k = e.obj := fun h => he h.symm
+        simp [stepObject, this]
+      have := ih (stepObject cfg m e.obj e.at_ e.inp)
+      rw [hm] at this
+      simp only [he, if_false, List.filter_cons, decide_false]
+      exact this
 
-/-- Processing recovers once errors stop: a cycle whose 1st sleep is not interrupted always lets
-    the block run — never before the pause is over — and if the block then succeeds the throttler
-    is as new. -/
+/-- Processing recovers once errors stop: a cycle whose 1st sleep is not interrupted — or that
+    starts when the pause is already over, wake-up or not — always lets the block run, never before
+    the pause is over, and if the block then succeeds the throttler is as new. -/
 theorem recovers_after_errors_stop (cfg : Delays) (s : Throttler) (t : Int) (i : CycleIn)
-    (hw : i.wake1 = none) :
+    (hw : i.wake1 = none ∨ ∀ u, s.activeUntil = some u → u ≤ t) :
     (cycle cfg s t i).shouldRun = true ∧
     (∀ u, s.activeUntil = some u → u ≤ t + (cycle cfg s t i).sleep1) ∧
     (i.body = .success → (cycle cfg s t i).st = Throttler.fresh) := by
   have h1 := cycle_shouldRun cfg s t i
-  have h2 := phase1_sleep s t
-  rw [hw] at h1
-  have hsr : (cycle cfg s t i).shouldRun = true := by rw [h1.1, h2.1]; rfl
-  exact ⟨hsr, fun u hu => by rw [h1.2]; exact h2.2 u hu, fun hb => (success_resets cfg s t i hb hsr).1⟩
+  have key : (phase1 s t i.wake1).2.activeUntil = none ∧
+      ∀ u, s.activeUntil = some u → u ≤ t + (phase1 s t i.wake1).1 := by
+    rcases hw with hw | hw
+    · rw [hw]; exact phase1_sleep s t
+    · unfold phase1
+      cases hu : s.activeUntil with
+      | none => simp [hu]
+      | some u =>
+        have hle := hw u hu
+        have : aioSleep (u - t) i.wake1 = (0, true) := by
+          unfold aioSleep; have : u - t ≤ 0 := by omega
+          simp [this]
+        simp [this]; omega
+  have hsr : (cycle cfg s t i).shouldRun = true := by rw [h1.1, key.1]; rfl
+  exact ⟨hsr, fun u hu => by rw [h1.2]; exact key.2 u hu, fun hb => (success_resets cfg s t i hb hsr).1⟩
+
+/-- An interrupted pause is kept: when a wake-up (a new event for the same object) cuts the 2nd
+    sleep short, the deadline stays in the throttler — the following cycles are governed by
+    `paused_while_active` until it has passed, then by `recovers_after_errors_stop`. -/
+theorem interrupted_pause_is_kept (nth : Nat → Option Int) (s : Throttler) (t : Int) (ran : Bool)
+    (dur : Nat) (w1 : Option Nat) (w : Nat) (d : Int) (h : s.activeUntil = none)
+    (hd : (nextDelay nth (s.src.getD 0) s.last).1 = some d) (hlt : (w : Int) < d) :
+    (cycle (.seq nth) s t ⟨.error true, ran, dur, w1, some w⟩).st.activeUntil = some (t + dur + d) ∧
+    (cycle (.seq nth) s t ⟨.error true, ran, dur, w1, some w⟩).sleep2 = w ∧
+    (cycle (.seq nth) s t ⟨.error true, ran, dur, w1, some w⟩).escaped = .none_ := by
+  rw [cycle_inactive _ s t _ h]
+  unfold phase2
+  have e : t + ↑dur + d - (t + ↑dur) = d := by omega
+  have hs : aioSleep d (some w) = ((w : Int), false) := by
+    unfold aioSleep
+    have : ¬ d ≤ 0 := by omega
+    simp [this, hlt]
+  simp [h, hd, e, hs]
+
+/-- A scalar `error_delays` (not an `Iterable`, against the annotation): the first error of
+    interest makes `iter(delays)` raise TypeError out of `throttled()` — nothing is swallowed. Not
+    judged (misconfiguration), but stated: the property's quantifier lists "scalar". -/
+theorem scalar_delays_escape_witness (d : Int) (s : Throttler) (t : Int) (ran : Bool) (dur : Nat)
+    (w1 w2 : Option Nat) (h : s.activeUntil = none) :
+    (cycle (.scalar d) s t ⟨.error true, ran, dur, w1, w2⟩).escaped = .typeError := by
+  rw [cycle_inactive _ s t _ h]
+  unfold phase2
+  simp [h]
 
 /-- … and while the pause lasts, a wake-up (new events for the same object) does not let the block
     run and changes nothing in the throttler. -/
@@ -595,10 +746,17 @@ theorem selectable (s : St) (h : Reach s) (hne : s.cur ≠ []) :
     ∃ k c, lookup k s.cur = some c ∧ isTop s.cur c = true :=
   exists_top s.cur (keysNodup_of_reach s h) hne
 
-/-- Invalidated credentials are not reused: whatever a requester is handed by `select()` is not
-    equal (dataclass `==`: value and priority) to any of the last `historyBound = 3` credentials
-    invalidated under that key. The bound is real, see the witness below. -/
-theorem invalid_not_reused (s s' : St) (h : Reach s) (r : Nat) (k : Key) (it : Item)
+/-! ### "invalidated credentials are not reused"
+
+  Full statement (FALSE of the code — finding F3, three witnesses below):
+    Reach s → step s (.acquire r k) = some s' → s'.reqs r = .using k it →
+      ∀ k0 j, j ∈ s.invAll k0 → j.info ≠ it.info
+  i.e. a credential value that was invalidated (under whatever key, with whatever priority, however
+  long ago) is never handed out again. The code remembers only `_invalid[key][-2:] + [item]` — the
+  last `historyBound = 3` items PER KEY — and compares with dataclass `==` (value AND priority). The
+  `_partial` theorem carries exactly that guard. -/
+
+theorem invalid_not_reused_partial (s s' : St) (h : Reach s) (r : Nat) (k : Key) (it : Item)
     (hs : step s (.acquire r k) = some s') (hu : s'.reqs r = .using k it) :
     ∀ j ∈ lastN historyBound (s.invAll k), ¬ matches_ j it := by
   obtain ⟨_, _, hh⟩ := inv_of_reach s h
@@ -626,28 +784,70 @@ theorem invalid_refused_by_populate (s : St) (h : Reach s) (src : List (Key × N
     simp only [populated]; rw [hh.2 k]; exact hj
   exact this.1 k it hl j hj'
 
-/-- The history bound is tight: the 4th-oldest invalidated credential of a key IS accepted and
-    served again (one requester, one key, credentials 1, 2, 3, 4 invalidated in turn, then the
+/-- the negation of the full statement, as a property of one acquisition: a *new* selection
+    (`step … (.acquire r k)`) hands out an item whose credential value equals that of a *different*,
+    previously invalidated item -/
+def Reserved (src : List (Key × Nat × Int)) (ls : List Label) (r : Nat) (k : Key) : Prop :=
+  ∃ s s' it k0 j, V.run (init src) ls = some s ∧ step s (.acquire r k) = some s' ∧
+    s'.reqs r = .using k it ∧ j ∈ s.invAll k0 ∧ j.info = it.info ∧ j.id ≠ it.id
+
+private theorem reserved_of (src : List (Key × Nat × Int)) (ls : List Label) (r : Nat) (k k0 : Key)
+    (it j : Item)
+    (h1 : (V.run (init src) (ls ++ [.acquire r k])).map (fun s => s.reqs r) = some (.using k it))
+    (h2 : ∃ l, (V.run (init src) ls).map (fun s => s.invAll k0) = some l ∧ j ∈ l)
+    (hinfo : j.info = it.info) (hid : j.id ≠ it.id) : Reserved src ls r k := by
+  obtain ⟨l, h2, hm⟩ := h2
+  cases hs : V.run (init src) ls with
+  | none => simp [hs] at h2
+  | some s =>
+    cases hs' : V.run (init src) (ls ++ [.acquire r k]) with
+    | none => simp [hs'] at h1
+    | some s' =>
+      simp only [hs', Option.map_some, Option.some.injEq] at h1
+      simp only [hs, Option.map_some, Option.some.injEq] at h2
+      exact ⟨s, s', it, k0, j, hs, step_of_runs _ s s' ls _ hs hs', h1, by rw [h2]; exact hm, hinfo, hid⟩
+
+private def round (r : Nat) (k : Key) (n : Nat) (p : Int) : List Label :=
+  [.unauth r, .inval r, .authStart, .populate [(k, n, p)], .invalWake r, .post r]
+
+/-- F3 (a): the history holds 3 items per key — the 4th-oldest invalidated credential of a key IS
+    accepted by `populate` and served again (credentials 1, 2, 3, 4 invalidated in turn, then the
     login handler offers 1 again). -/
 theorem invalid_reused_beyond_history_witness :
-    ∃ (src : List (Key × Nat × Int)) (ls : List Label) (s : St) (it j : Item),
-      V.run (init src) ls = some s ∧ s.reqs 0 = .using 0 it ∧ j ∈ s.invAll 0 ∧ matches_ j it := by
-  let round (n : Nat) : List Label :=
-    [.unauth 0, .inval 0, .authStart, .populate [(0, n, 0)], .invalWake 0, .post 0, .acquire 0 0]
-  let ls : List Label := [.start 0, .acquire 0 0] ++ round 2 ++ round 3 ++ round 4 ++ round 1
-  have hrun : ∃ s, V.run (init [(0, 1, 0)]) ls = some s := by
-    cases hr : V.run (init [(0, 1, 0)]) ls with
-    | some s => exact ⟨s, rfl⟩
-    | none =>
-      have : (V.run (init [(0, 1, 0)]) ls).isSome = true := by decide
-      rw [hr] at this; cases this
-  obtain ⟨s, hs⟩ := hrun
-  have h1 : (V.run (init [(0, 1, 0)]) ls).map (fun s => s.reqs 0) = some (.using 0 ⟨4, 1, 0⟩) := by decide
-  have h2 : (V.run (init [(0, 1, 0)]) ls).map (fun s => s.invAll 0) =
-      some [⟨0, 1, 0⟩, ⟨1, 2, 0⟩, ⟨2, 3, 0⟩, ⟨3, 4, 0⟩] := by decide
-  rw [hs] at h1 h2
-  simp only [Option.map_some, Option.some.injEq] at h1 h2
-  exact ⟨[(0, 1, 0)], ls, s, ⟨4, 1, 0⟩, ⟨0, 1, 0⟩, hs, h1, by rw [h2]; simp, ⟨rfl, rfl⟩⟩
+    Reserved [(0, 1, 0)]
+      ([.start 0, .acquire 0 0] ++ round 0 0 2 0 ++ [.acquire 0 0] ++ round 0 0 3 0 ++ [.acquire 0 0] ++
+        round 0 0 4 0 ++ [.acquire 0 0] ++ round 0 0 1 0) 0 0 :=
+  reserved_of _ _ 0 0 0 ⟨4, 1, 0⟩ ⟨0, 1, 0⟩ (by decide)
+    ⟨[⟨0, 1, 0⟩, ⟨1, 2, 0⟩, ⟨2, 3, 0⟩, ⟨3, 4, 0⟩], by decide, by simp⟩ rfl (by decide)
+
+/-- F3 (b): the history is per vault key — the credential invalidated under key 0 is accepted and
+    served when a login handler offers it under key 1 (two login handlers, same kubeconfig). -/
+theorem invalid_reused_under_other_key_witness :
+    Reserved [(0, 1, 0)]
+      [.start 0, .acquire 0 0, .unauth 0, .inval 0, .authStart, .populate [(1, 1, 0)], .invalWake 0, .post 0]
+      0 1 :=
+  reserved_of _ _ 0 1 0 ⟨1, 1, 0⟩ ⟨0, 1, 0⟩ (by decide) ⟨[⟨0, 1, 0⟩], by decide, by simp⟩ rfl (by decide)
+
+/-- F3 (c): the comparison includes the priority — the same credential value with another priority
+    under the same key is accepted and served. -/
+theorem invalid_reused_with_other_priority_witness :
+    Reserved [(0, 1, 0)]
+      [.start 0, .acquire 0 0, .unauth 0, .inval 0, .authStart, .populate [(0, 1, 5)], .invalWake 0, .post 0]
+      0 0 :=
+  reserved_of _ _ 0 0 0 ⟨1, 1, 5⟩ ⟨0, 1, 0⟩ (by decide) ⟨[⟨0, 1, 0⟩], by decide, by simp⟩ rfl (by decide)
+
+/-- A 401 *triggers* a re-authentication and the blocked requests can be released: from every
+    reachable state with `_ready = False` the authenticator's path to `populate` is enabled — whatever
+    the requesters do — and after it the vault is ready again with exactly what `populate` accepted. -/
+theorem reauth_possible (s : St) (hr : s.ready = false) (src : List (Key × Nat × Int)) :
+    ∃ ls s', V.run s ls = some s' ∧ s'.ready = true ∧ s'.auth = .idle ∧
+      s'.cur = (accept s.inv src s.cur s.nextId).1 ∧ s'.reqs = s.reqs := by
+  cases ha : s.auth with
+  | idle =>
+    exact ⟨[.authStart, .populate src], populated { s with auth := .running, episodes := s.episodes + 1 } src,
+      by simp [V.run, step, ha, hr], rfl, rfl, rfl, rfl⟩
+  | running =>
+    exact ⟨[.populate src], populated s src, by simp [V.run, step, ha], rfl, rfl, rfl, rfl⟩
 
 /-- the "Reached an impossible state" RuntimeError of `authenticated` is indeed unreachable -/
 theorem no_impossible_state (s : St) (h : Reach s) (r : Nat) : s.reqs r ≠ .done .impossible :=
